@@ -3,19 +3,23 @@ from common import COMMON_TB
 PROP = {
     "bin": "c08",
     "prop_file": "Properties/C08.v",
-    "model_files": ["Columnar/BitPack.v", "Columnar/MonoMap.v", "Columnar/Stats.v", "Columnar/Line.v", "Columnar/Blockwise.v", "Columnar/BlockwiseProofs.v", "Columnar/OptionalIndex.v", "Columnar/Spec.v", "Columnar/Cases.v"],
+    "model_files": ["Columnar/BitPack.v", "Columnar/MonoMap.v", "Columnar/Stats.v", "Columnar/Line.v", "Columnar/Blockwise.v", "Columnar/BlockwiseProofs.v", "Columnar/OptionalIndex.v", "Columnar/OptionalIndexProofs.v", "Columnar/MultiValued.v", "Columnar/MergeIndex.v", "Columnar/IndexTie.v", "Columnar/Spec.v", "Columnar/Cases.v"],
     "level": "proof",
     "engine": "E5-codecs",
     "level_text": "Proof (value lists of ANY length, every width allowed by the pinned 56/64 rule, all of u64 incl. 0 and 2^64-1): BitPacker::write/flush lays values out as the "
                   "little-endian bit string and BitUnpacker::get (fast path and <8-byte slow path) extracts exactly the w-bit window, hence get(pack(vals)) = vals; compute_num_bits always "
                   "yields an accepted width; StatsCollector (min, max, Euclid gcd with fuel proved adequate, rows) bounds all values, is attained, and its wire form reproduces max; all three "
                   "column codecs are proved exact: bit-packed (min + gcd*q), linear (Line::train/eval with wrapping arithmetic, >>32, as i32; exact whatever the line), block-wise linear "
-                  "(512-row blocks, one bit packer shared across blocks, reader-side offset recomputation); reported min/max/num_vals are proved for each; range lookup on bit-packed columns is "
-                  "proved to return exactly the rows holding a value in the range for EVERY range, using the pinned guard `*range.end() < stats.min_value` (COLUMNAR_RANGE_BELOW_MIN_GUARD, proof re-run on the regenerated constant); "
-                  "without the guard it is refuted below the column minimum (F81, fixed in /repo; witness theorem kept as regression, corpus case in the harness); "
-                  "i64/bool/f64 mappings are proved inverted and strictly monotone (f64 on bit patterns w.r.t. the sign-magnitude key). "
-                  "PARTIAL (executable model tied by cases + list specification evaluated in Coq on the implementation's answers, no general theorem yet): optional index rank/select "
-                  "(dense/sparse blocks), multivalued start offsets, compact space for u128 (IP columns: spec level only), stacked/shuffled merge and dictionary-ordinal remapping (spec level only).",
+                  "(512-row blocks, one bit packer shared across blocks, reader-side offset recomputation); reported min/max/num_vals are proved for each; range lookup on bit-packed columns "
+                  "(range transform with the pinned guard `*range.end() < stats.min_value`, then BitUnpacker::get_ids_for_value_range with its u32 narrowing: pinned flags for the saturation of "
+                  "the upper bound at u32::MAX and for the empty answer when the lower bound exceeds it) is proved to return exactly the rows holding a value in the range for EVERY range; the proofs "
+                  "re-run on the regenerated flags; without the guard the lookup is refuted below the column minimum (F81, fixed in /repo; witness theorem and corpus case kept); "
+                  "i64/bool/f64 mappings are proved inverted and strictly monotone (f64 on bit patterns w.r.t. the sign-magnitude key); optional index (rank / rank_if_exists / select mutually "
+                  "inverse and equal to the list specification, any strictly increasing row list, any dense/sparse choice, block boundaries), multivalued start offsets (values_for_doc reproduces "
+                  "each row in insertion order) and stacked / shuffled merges of column indexes are proved (OptionalIndexProofs.v, MultiValued.v, MergeIndex.v, IndexTie.v). "
+                  "Tied only (cases / list specification evaluated on the implementation's answers, no theorem): byte framing of blocks, metadata, headers and footers (VInt), the merge iterators "
+                  "(the merge theorems are about the model; merge_columnar itself is compared with the list specification at the result level only), dictionary-ordinal remapping (result level), "
+                  "compact space for u128 / IP columns (result level only), get_batch_u32s / BitPacker1x batch decoding.",
     "level_note": "Trusted: Coq kernel + vm_compute; pin.py; harness. fastdivide::DividerU64 is a Section variable with contract fdiv d x = x / d. The estimator's codec choice is not modelled "
                   "(every codec is forced in turn and must be exact; only decoded behaviour is compared). VInt framing of column headers/footers is parsed by the harness, not modelled. "
                   "IEEE-754 order of non-NaN doubles = order of the sign-magnitude key: tied by differential runs against Rust's f64 comparison; f64 range lookups are specified in the "
